@@ -20,7 +20,7 @@ pub fn check() -> Check {
         replay,
         floor_quick: 20_000,
         floor_thorough: 500_000,
-        rule: "G1: breadth-first closure of a list model of the history for buffers of 0..=13 (quick) / 0..=16 (thorough) bytes over the lines {a, b, e-acute, ab, 'a b', bitcoin sign, abc, empty, a 12-byte line}; every (state, op) edge - push of each line, older, newer - is replayed on a fresh real History: \
+        rule: "G1: breadth-first closure of a list model of the history for buffers of 0..=14 (quick) / 0..=17 (thorough) bytes over the lines {a, b, e-acute, ab, 'a b', bitcoin sign, abc, empty, a 12-byte line}; every (state, op) edge - push of each line, older, newer - is replayed on a fresh real History: \
                return value, raw buffer content (hook) and navigation position compared. G2: random op sequences for buffers of 0..=40 bytes with lines of 0..=45 bytes (beyond the buffer) and frequent duplicates. \
                G3: Cli sessions (submit / Up / Down / edit then submit, command buffer larger and smaller than the history buffer), each ending with an Up-walk to the oldest entry and a Down-walk back; the recalled line, the raw buffer and the position are compared after every key. \
                Non-trivial = the sequence contains an eviction or a mid-list duplicate followed by navigation; distinct by op sequence.",
@@ -297,7 +297,7 @@ fn cli_case_strategy() -> impl Strategy<Value = CliCase> {
 
 fn run_shard(ctx: &ShardCtx) {
     // G1
-    let max_cap = ctx.tier.pick(13usize, 16usize);
+    let max_cap = ctx.tier.pick(14usize, 17usize);
     let lines = closure_lines();
     let mut all_ops: Vec<HOp> = lines.iter().map(|l| HOp::Push(l.clone())).collect();
     all_ops.push(HOp::Older);
@@ -379,7 +379,7 @@ fn run_shard(ctx: &ShardCtx) {
     let strat = (0usize..=40, proptest::collection::vec(hop, 0..60));
     ctx.run_prop(
         "history-random",
-        ctx.tier.pick(400_000, 5_000_000),
+        ctx.tier.pick(2_000_000, 20_000_000),
         strat,
         |(cap, ops)| seq_json(*cap, ops),
         |(cap, ops)| match run_seq(*cap, ops) {
@@ -395,7 +395,7 @@ fn run_shard(ctx: &ShardCtx) {
     );
 
     // G3
-    ctx.run_prop("history-cli", ctx.tier.pick(100_000, 1_000_000), cli_case_strategy(), cli_case_json, |c| match run_cli(c) {
+    ctx.run_prop("history-cli", ctx.tier.pick(600_000, 6_000_000), cli_case_strategy(), cli_case_json, |c| match run_cli(c) {
         Ok(nt) => {
             if nt {
                 ctx.class("cli:eviction or mid-list duplicate followed by navigation");
